@@ -677,3 +677,23 @@ Proof.
   intros k. replace (cs_lg (clrun leave_s0 [EvShutdown 0 [Done; Done] None])) with (@nil mentry) by reflexivity.
   now rewrite firstn_nil.
 Qed.
+
+(* ================= non-vacuity: peer 0 removes peer 2, which holds the only copy of CID 1 ================= *)
+Module Demo.
+Definition e : env := mk_env 0 [mk_metric 0 (Some 10) 3600 true; mk_metric 1 (Some 20) 3600 true; mk_metric 2 (Some 5) 3600 true] [] [].
+Definition pc : pcfg := mk_pcfg (mk_cfg 1 1 false false) false.
+Definition peer_ (m : N) : cpeer := mk_cpeer true true false 0 (mk_dir (Some (m, None)) (fun _ => None)) 0 pc false 2.
+Definition x : pin := mk_pin (mk_opts 1 1 0 0 0 [] None [] None []) 1 DataT [2] (-1) None.
+Definition s0 : cstate := mk_cstate [0; 1; 2] [] [(1, x)] [] 0 [(0, peer_ 1); (1, peer_ 2); (2, peer_ 3)].
+Definition o : repin_or := mk_ror e (fun _ xs => xs) (fun l => l) [].
+Definition evs : list cev := [EvPeerRemove 0 2 o [Done]; EvDeliver 2; EvWatchTick 2 (Some 5); EvShutdown 1 [] (Some 6)].
+Lemma run :
+  clinit_ok s0 = true /\
+  let s := clrun s0 evs in
+  cs_tr s = [(0%nat, TPin 1 0); (0%nat, TRm 2)] /\ cs_lg s = [ERm 2] /\ cfg_peers s = [0; 1] /\
+  aget 1 (cs_st s) = Some (set_allocs [0] x) /\
+  map (fun pq => (fst pq, cp_running (snd pq), cp_removed (snd pq), cp_cleans (snd pq), live (cp_dir (snd pq)), olds (cp_dir (snd pq)) 0%nat))
+      (cs_peers s) =
+  [(1, false, false, 0%nat, Some (2, Some 6), None); (2, false, true, 1%nat, None, Some (3, Some 5)); (0, true, false, 0%nat, Some (1, None), None)].
+Proof. split; [reflexivity|]. vm_compute. repeat split. Qed.
+End Demo.
